@@ -9,6 +9,10 @@ require (
 	github.com/vektah/gqlparser/v2 v2.5.1
 )
 
-require golang.org/x/exp v0.0.0-20220303212507-bbda1eaf7a17 // indirect
+require (
+	github.com/gobwas/httphead v0.1.0 // indirect
+	github.com/gobwas/pool v0.2.1 // indirect
+	golang.org/x/exp v0.0.0-20220303212507-bbda1eaf7a17 // indirect
+)
 
 replace github.com/buildbuildio/pebbles => /repo
